@@ -351,8 +351,6 @@ def _patch_sklearn():
         def _check_reg_targets(*args, **kwargs):
             if len(args) == 3 and not kwargs:
                 return _crt_024(*args)
-            if len(args) == 4 and not kwargs and isinstance(args[3], str):
-                return _crt_024(*args)
             return _orig_crt(*args, **kwargs)
 
         _check_reg_targets._verif = True
